@@ -50,7 +50,8 @@ OK(e, g) ==
     [] op = "new" -> e[4] = OKST /\ e[5] = Concat(e[2])
     [] op = "len" -> e[2] = OKST /\ e[3] = Len(g)
     [] op = "get" -> e[3] = OKST /\ e[4] = Get(g, e[2])
-    [] op = "slice" -> e[4] = OKST /\ e[5] = Slice(g, e[2], e[3])
+    \* (an event whose arguments do not fit the value it claims to operate on is rejected, not an error)
+    [] op = "slice" -> e[2] + e[3] <= Len(g) /\ e[4] = OKST /\ e[5] = Slice(g, e[2], e[3])
     [] op = "select" -> e[3] = OKST /\ e[4] = Select(g, e[2])
     [] op = "serde" -> e[2] = OKST /\ e[3] = g /\ e[4]
     [] op = "rechunk" ->
